@@ -65,6 +65,8 @@ def declare(spec):
                       f"and {NI}.service_start_date == self.now and {NI}.service_end_date == self.now + {NI}.service_time and {NI}.service_time >= 0 "
                       f"and as_obj({NI}.server, 'Server').next_end_service_date == {NI}.service_end_date"),
                      ("C04:one-out-one-in", "self.number_in_service == old(self.number_in_service) and self.number_of_individuals == old(self.number_of_individuals)"),
+                     ("C08:the-victim-keeps-its-place-in-its-line-and-no-line-is-reordered",
+                      "forall_in(self.individuals, lambda q: S(q) == old(S(q)))"),
                  ]),
             dict(name="reroute", when="self.priority_preempt == 'reroute'", requires=REROUTE_PRE, modifies=["*"],
                  expect_calls={"release": 1},
